@@ -24,6 +24,8 @@ inline constexpr struct tuple_cat {
         return etl::forward_as_tuple(get<I1>(etl::forward<T1>(t1))..., get<I2>(etl::forward<T2>(t2))...);
     }
 
+    [[nodiscard]] constexpr auto operator()() const { return etl::tuple<>{}; }
+
     template <etl::tuple_like Result>
     [[nodiscard]] constexpr auto operator()(Result&& result) const
     {
